@@ -214,7 +214,7 @@ func zzHwmonLimits(e *zzEnv) {
 
 func zzNKeys() int {
 	if zzv.Thorough() {
-		return zzv.Choice("nkeys", 6) + 1
+		return zzv.Choice("nkeys", 4) + 1
 	}
 	return 2
 }
